@@ -69,7 +69,8 @@ error for triage.  (R3) wrong-typed / fractional parameters: either refusal or e
 reaches the seam counts as the number it stands for).  (R4) the switch-on of a software-timed pulse is an `enable`
 whose hold field carries the *pulse* power for the pulse time: it is judged against max_pulse_power, not against
 max_hold_power.  (R5) in the instant a template default_pulse_ms is re-evaluated a parameterless request may be judged
-with the old or the new default.
+with the old or the new default.  A parameterless pulse stands for the default in force when it was requested (also
+when the PSU defers it and the default changes meanwhile).
 Refusal inside an event handler / task kills MPF (MpfCrashed): for a request that may be refused this is the
 expected refusal-by-exception and ends the run; any other crash is a harness error.
 """
@@ -605,6 +606,9 @@ class Monitor:
                     if cls2 != cls:
                         cls, why, safe = "open", ["default_changing"], safe + safe2
             req = {"kind": kind, "coil": coil, "a": a, "cls": cls, "why": why, "safe": safe}
+        # the default pulse length a parameterless request stands for is the one in force when the request is made
+        # (MPF resolves it then; a PSU-deferred pulse keeps it even if a template default changes while it waits)
+        req["def_ms"] = eff_pulse_ms_options(env, self.mpf_default) if env is not None else []
         req["n0"] = self.ncmd.get(coil, 0)
         req["r0"] = self.nrule.get(coil, 0)
         req["t"] = self.now()
@@ -749,7 +753,7 @@ class Monitor:
         if src is not None and src["kind"] == "pulse":
             d = src["a"].get("pulse_ms")
             if d is None:
-                d = max([x for x in eff_pulse_ms_options(env, self.mpf_default) if is_num(x)] or [0])
+                d = max([x for x in src["def_ms"] if is_num(x)] or [0])
             d = d if is_num(d) else 0
             ctx.probe("sw_pulse")
             for o in self.open_obligations(coil):
@@ -777,12 +781,11 @@ class Monitor:
             a = r["a"]
             pp = a.get("pulse_power")
             pp = pp if pp is not None else eff_pulse_power(env)
-            ms = a.get("pulse_ms")
-            ms = ms if ms is not None else eff_pulse_ms(env, self.mpf_default)
+            mss = [a["pulse_ms"]] if a.get("pulse_ms") is not None else r["def_ms"]
             if r["kind"] == "pulse":
-                if op == "pulse" and rec["pulse_ms"] == ms and rec["pulse_power"] == pp:
+                if op == "pulse" and rec["pulse_ms"] in mss and rec["pulse_power"] == pp:
                     return lst.pop(i)
-                if op == "timed_enable" and rec["pulse_ms"] == ms and rec["pulse_power"] == pp:
+                if op == "timed_enable" and rec["pulse_ms"] in mss and rec["pulse_power"] == pp:
                     return lst.pop(i)
                 if op == "enable" and rec["pulse_ms"] == 0 and rec["pulse_power"] == pp and rec["hold_power"] == pp:
                     # ambiguous with a deferred enable(pulse_ms=0, equal powers): then take the hold reading (no
@@ -791,7 +794,7 @@ class Monitor:
                         if r2["kind"] == "enable" and r2["a"].get("pulse_ms") == 0 and holds_allowed(env):
                             return lst.pop(j)
                     return lst.pop(i)
-            elif r["kind"] == "enable" and op == "enable" and rec["pulse_ms"] == ms and rec["pulse_power"] == pp:
+            elif r["kind"] == "enable" and op == "enable" and rec["pulse_ms"] in mss and rec["pulse_power"] == pp:
                 return lst.pop(i)
         return None
 
